@@ -196,6 +196,10 @@ func runGenesis(seed uint64, ops int, out string) map[string]int {
 			os.Exit(1)
 		}
 		s.h = NewHist(s.cfg, r, s.n)
+		if w := seq / perWorld; w == 1 || w == 2 {
+			// a registry of more than a hundred CSRs (one default page of the query servers) before the later checkpoints
+			s.h.burst = 102 + r.Intn(8)
+		}
 		s.t.Line(fmt.Sprintf("W world=%d", seq/perWorld))
 		for k := 0; k < perWorld && seq < ops; k++ {
 			nb := 1 + r.Intn(12)
